@@ -215,9 +215,12 @@ func (g *gen) assign() string {
 		return fmt.Sprintf("%s %s= %s\n", v.Name, g.OneOf("fop", "+", "-", "*"), g.floatExpr(1))
 	case "string":
 		if g.Bool("assign-str") {
-			return fmt.Sprintf("%s = %s\n", v.Name, g.StrExpr(2))
+			// at most one variable on the right, and literals only after +=: a string that is
+			// concatenated with itself inside nested loops grows exponentially (the thorough tier
+			// reached 40 GB and the OOM killer)
+			return fmt.Sprintf("%s = %s + %s\n", v.Name, g.StrExpr(0), g.OneOf("str-suffix", `"a"`, `"ab"`, `""`, `"é"`))
 		}
-		return fmt.Sprintf("%s += %s\n", v.Name, g.StrExpr(1))
+		return fmt.Sprintf("%s += %s\n", v.Name, g.OneOf("str-suffix", `"a"`, `"ab"`, `"x\ty"`, `"é"`))
 	case "bool":
 		return fmt.Sprintf("%s = %s\n", v.Name, g.boolExpr(2))
 	case "[]int":
@@ -279,7 +282,7 @@ func (g *gen) assign() string {
 			case 0:
 				return fmt.Sprintf("%s.%s = %s\n", v.Name, g.fa, g.IntExpr(1))
 			case 1:
-				return fmt.Sprintf("%s.%s += %s\n", v.Name, g.fb, g.StrExpr(1))
+				return fmt.Sprintf("%s.%s += %s\n", v.Name, g.fb, g.OneOf("str-suffix", `"a"`, `"ab"`, `"x\ty"`, `"é"`))
 			case 2:
 				return fmt.Sprintf("%s.%s = %s\n", v.Name, g.fc, g.floatExpr(1))
 			case 3:
